@@ -377,6 +377,10 @@ def judge_batch(chk, cases, srcs, tmp, tot):
                     if p and p.startswith(tmp) and os.path.exists(p):
                         os.remove(p)
     t2 = time.time()
+    for evs in events:
+        for e in evs:
+            if e.get("a") == "Save" and (e.get("tw_outcome") != "ok" or e.get("tw", {}).get("outcome") != "ok"):
+                chk.extra["saves_not_judged_eager_twin_failed"] = chk.extra.get("saves_not_judged_eager_twin_failed", 0) + 1
     out = vlib.validate("Trace_Lazy", "Trace_Lazy.cfg", events, chk.open_ids, "c11", chunk_events=1500)
     tot[0] += t1 - t0
     tot[1] += t2 - t1
